@@ -25,6 +25,7 @@ type genParams struct {
 	PCancel   float64
 	PNil      float64
 	PEres     float64
+	PShared   float64 // probability that a plain retryable struct leaf is built on the shared BaseNode
 	PBig      float64 // probability that a retryable leaf gets a budget beyond 32 bits
 	PZero     float64 // probability that a leaf is a zero-size node type (all of them share one address)
 	PDyn      float64 // probability that a post callback makes one of the pending Connect calls (dynamic wiring)
@@ -156,6 +157,12 @@ func genEngineCfg(r *rand.Rand, p genParams) EngineCfg {
 			n.Retry, n.Fb = true, r.Intn(2) == 0
 			n.N = 1 + r.Intn(p.MaxN)
 		}
+		if p.PShared > 0 && n.Kind == "leaf" && r.Float64() < p.PShared {
+			// struct nodes built on one shared BaseNode object
+			n.Func, n.Retry, n.Fb, n.Sty = false, true, false, []string{"-", "-", "-"}
+			n.Gk = "structsh"
+			n.N = 1 + r.Intn(2)
+		}
 		if p.PBig > 0 && n.Retry && n.Kind == "leaf" && r.Float64() < p.PBig {
 			n.Big = 1 + r.Intn(len(bigBudgets)-1)
 			n.N = bigStandIn
@@ -163,9 +170,12 @@ func genEngineCfg(r *rand.Rand, p genParams) EngineCfg {
 		c.Nodes = append(c.Nodes, n)
 	}
 	nActs := 1 + r.Intn(5)
+	if p.Mode == "wide" {
+		nActs = 9 + r.Intn(5) // a node with more outgoing actions than a small inline table holds
+	}
 	// the default action and a random choice of the others (case variants, prefixes of each other, blank-looking names)
 	c.Acts = append(c.Acts, 1)
-	others := []int{2, 3, 4, 5, 6, 7, 8, 9, 10, 11}
+	others := []int{2, 3, 4, 5, 6, 7, 8, 9, 10, 11, 12, 13, 14}
 	r.Shuffle(len(others), func(i, j int) { others[i], others[j] = others[j], others[i] })
 	c.Acts = append(c.Acts, others[:nActs-1]...)
 	members := map[int][]int{}
@@ -222,6 +232,9 @@ func genEngineCfg(r *rand.Rand, p genParams) EngineCfg {
 			nOps := r.Intn(2*len(ms)*nActs + 1)
 			if run > 0 {
 				nOps = r.Intn(len(ms) + 1)
+				if p.Mode == "wide" {
+					nOps = len(ms) + r.Intn(2*len(ms)+1) // overwrite entries of full tables
+				}
 			}
 			for o := 0; o < nOps; o++ {
 				to := 0
@@ -324,6 +337,11 @@ func paramsFor(mode string) genParams {
 		p.PBLeaf = 0.75
 		p.MaxFlows, p.MaxLeaves, p.MaxRuns = 2, 4, 2
 		p.PExecErr, p.PCancel = 0.3, 0.1
+	case "sh": // most steps are distinct struct nodes that embed one and the same BaseNode object
+		p.MaxFlows, p.MaxLeaves, p.MaxRuns = 2, 6, 2
+		p.PShared, p.PExecErr = 0.9, 0.2
+	case "wide": // hubs with nine and more outgoing actions, re-connected between the runs
+		p.MaxFlows, p.MaxLeaves, p.MaxRuns, p.MaxVisits = 2, 3, 3, 10
 	case "recur": // flows that contain themselves, directly or through another flow
 		p.MaxFlows, p.MaxLeaves, p.MaxRuns, p.MaxVisits = 3, 4, 2, 12
 		p.PExecErr, p.PFbErr = 0.15, 0.3
